@@ -557,7 +557,11 @@ def check_pauli_expansion(ctx):
                     letters[s.test.comparators[0].value] = b.value.left.value.strip("*")
                     idx_ok = idx_ok and norm(b.value.right) in ("str(ind)",)
     enum_ok = any(isinstance(l, ast.For) and isinstance(l.iter, ast.Call) and dotted(l.iter.func) == "enumerate" and isinstance(l.target, ast.Tuple) and norm(l.target.elts[0]) == "ind" for l in ast.walk(cl.node))
-    ctx.check(letters == {1: "X", 2: "Y", 3: "Z"} and idx_ok and enum_ok, R5, cl.key + ":letters", "label 1/2/3 at position i becomes X/Y/Z on qubit i", f"labels are turned into letters {letters} (index from the label's own position: {idx_ok and enum_ok})", cl)
+    if not letters:
+        # no `if elem == k: symbol = "*L" + str(ind)` chain in the function body (a helper, a lookup table ...): construct lost
+        ctx.undecided(R5, cl.key + ":letters", "cannot find the chain that turns a label 1/2/3 into a letter with the label's position as index", cl)
+    else:
+      ctx.check(letters == {1: "X", 2: "Y", 3: "Z"} and idx_ok and enum_ok, R5, cl.key + ":letters", "label 1/2/3 at position i becomes X/Y/Z on qubit i", f"labels are turned into letters {letters} (index from the label's own position: {idx_ok and enum_ok})", cl)
     # bin2dec / dec2bin significance
     b2d = repo.func(f"{UT}:bin2dec")
     ctx.analysed(b2d)
